@@ -17,6 +17,7 @@ import (
 )
 
 type Violation struct {
+	size  int
 	Key   string      `json:"key"`   // stable identification of the failing input class (used for known findings)
 	What  string      `json:"what"`  // human readable description
 	Case  interface{} `json:"case"`  // self-contained replayable case
@@ -59,6 +60,7 @@ type H struct {
 	hashes   [][]uint64 // per worker
 	hmu      []sync.Mutex
 	sampleN  int
+	notes    map[string]bool
 	timedOut atomic.Bool
 	distinctByConstruction atomic.Int64
 }
@@ -190,6 +192,23 @@ func (h *H) Violate(key, what string, c interface{}) {
 	h.vio[key] = &Violation{Key: key, What: what, Case: c, Count: 1}
 }
 
+// ViolateMin is Violate that keeps, per key, the case with the smallest size (shortest counterexample).
+func (h *H) ViolateMin(key, what string, c interface{}, size int) {
+	h.mu.Lock()
+	defer h.mu.Unlock()
+	if v, ok := h.vio[key]; ok {
+		v.Count++
+		if size < v.size {
+			v.size, v.What, v.Case = size, what, c
+		}
+		return
+	}
+	if len(h.vio) >= maxKeys {
+		return
+	}
+	h.vio[key] = &Violation{Key: key, What: what, Case: c, Count: 1, size: size}
+}
+
 func (h *H) NViolations() int {
 	h.mu.Lock()
 	defer h.mu.Unlock()
@@ -208,6 +227,20 @@ func (h *H) AddExtra(k string, v interface{}) {
 	h.mu.Lock()
 	h.Rep.Extra[k] = v
 	h.mu.Unlock()
+}
+
+// WantNote returns true the first time it is called with a given tag.
+func (h *H) WantNote(tag string) bool {
+	h.mu.Lock()
+	defer h.mu.Unlock()
+	if h.notes == nil {
+		h.notes = map[string]bool{}
+	}
+	if h.notes[tag] {
+		return false
+	}
+	h.notes[tag] = true
+	return true
 }
 
 func (h *H) Counter(k string, d int64) {
